@@ -1244,6 +1244,22 @@ fn c18(r: &mut R) {
         let t2 = tp.clone();
         r.case("rnd_pt", vec![b(&tp)], || with_tape(&t2, &|| b(&c2.rnd_plaintext())));
     }
+    // consecutive random plaintexts expose the raw RNG bytes (30 per call): no 12-byte window of the
+    // concatenated stream may occur twice (chance collision < 2^-60: a statistical TEST, reported as such)
+    {
+        let mut stream: Vec<u8> = vec![];
+        for i in 0..(if quick { 400 } else { 4000 }) {
+            stream.extend(ctx.rnd_plaintext());
+            if i % 5 == 0 {
+                let _ = ctx.rnd_exp(); // interleave other request sizes (64 bytes)
+            }
+        }
+        if let Some((a, bb)) = crate::p_c18::repeated_window(&stream, 12) {
+            r.h.check(false, || format!("random plaintexts on R255 reuse RNG output: bytes {}.. of the concatenated plaintexts (plaintext #{}) repeat bytes {}.. (plaintext #{})", bb, bb / 30, a, a / 30));
+        } else {
+            r.h.check(true, String::new);
+        }
+    }
     let mut seen = std::collections::HashSet::new();
     for _ in 0..(if quick { 50 } else { 1000 }) {
         let x = xn(&ctx.rnd_exp());
